@@ -3,7 +3,11 @@ package main
 import (
 	"fmt"
 	"go/ast"
+	"go/parser"
 	"go/token"
+	"os"
+	"path/filepath"
+	"sort"
 	"strconv"
 	"strings"
 )
@@ -17,9 +21,15 @@ func init() { generators["microtasks"] = genMicroTasks }
 //   - every atomic.AddInt32 on the global counter / the per-module counter, per function, with its delta,
 //   - that the enqueue-timeout path counts and the wait-timeout path does not,
 //   - that concludeMicroTask decrements the global counter before it offers the finished token,
-//   - the default max delays, and which of Run*/Signal* replace a max delay of 0 by the default.
+//   - the default max delays, and which of Run*/Signal* replace a max delay of 0 by the default,
+//   - that concludeMicroTask calls checkIfStopComplete unconditionally between its two decrements, and the
+//     comparison checkIfStopComplete (modules/modules.go) applies to the module's microtask counter,
+//   - every write to the two counters anywhere in package modules (all non-test files, verif helpers included):
+//     a write outside the functions of microtasks.go listed below (any atomic.Store*/Add*/Swap*/CompareAndSwap*,
+//     a plain assignment through the pointer, a re-pointing of the counter outside init/initNewModule) is an error,
+//   - that the hook lines of the stop protocol the C15 trace relies on are still in place.
 //
-// It fails closed: any function of the file that touches the counters in a shape not listed here is an error.
+// It fails closed: any function of the package that touches the counters in a shape not listed here is an error.
 func genMicroTasks() {
 	fset, f := parseFile("modules/microtasks.go")
 	var sb strings.Builder
@@ -151,8 +161,8 @@ func genMicroTasks() {
 				return true
 			}
 			if !isSel(ce.Fun, "atomic", "AddInt32") || len(ce.Args) != 2 {
-				if isSel(ce.Fun, "atomic", "StoreInt32") && len(ce.Args) == 2 && mtIsIdent(ce.Args[0], "microTasks") {
-					die("%s: stores to the global microtask counter", fn.Name.Name)
+				if w, tgt := counterWrite(ce); w != "" {
+					die("%s: %s on the %s microtask counter (only atomic.AddInt32 is in the model)", fn.Name.Name, w, tgt)
 				}
 				return true
 			}
@@ -162,6 +172,8 @@ func genMicroTasks() {
 				t = "g"
 			case isSel(ce.Args[0], "m", "microTaskCnt"):
 				t = "m"
+			case isCounter(ce.Args[0]) != "":
+				die("%s: atomic.AddInt32 on the microtask counter of another module object than the receiver", fn.Name.Name)
 			default:
 				return true
 			}
@@ -276,8 +288,189 @@ func genMicroTasks() {
 	}
 	fmt.Fprintf(&sb, "/-- `concludeMicroTask` decrements the global counter before it offers the finished token (non-blocking send) -/\ndef tokenAfterDec : Bool := %v\n\n", decIdx < tokIdx)
 
+	// --- concludeMicroTask: the stop check, unconditional, after the module decrement and before the global one
+	modDecIdx, chkIdx, chkCalls := -1, -1, 0
+	for i, st := range con.Body.List {
+		ast.Inspect(st, func(n ast.Node) bool {
+			ce, ok := n.(*ast.CallExpr)
+			if !ok {
+				return true
+			}
+			if isSel(ce.Fun, "atomic", "AddInt32") && len(ce.Args) == 2 && isCounter(ce.Args[0]) == "per-module" {
+				modDecIdx = i
+			}
+			if se, ok := ce.Fun.(*ast.SelectorExpr); ok && se.Sel.Name == "checkIfStopComplete" {
+				chkCalls++
+			}
+			return true
+		})
+		if es, ok := st.(*ast.ExprStmt); ok {
+			if ce, ok := es.X.(*ast.CallExpr); ok && isSel(ce.Fun, "m", "checkIfStopComplete") && len(ce.Args) == 0 {
+				chkIdx = i
+			}
+		}
+	}
+	fmt.Fprintf(&sb, "/-- `concludeMicroTask` calls `m.checkIfStopComplete()` exactly once, unconditionally, after the module decrement and before the global decrement -/\ndef concludeChecksStop : Bool := %v\n\n",
+		chkCalls == 1 && modDecIdx >= 0 && modDecIdx < chkIdx && chkIdx < decIdx)
+
+	// --- checkIfStopComplete (modules/modules.go): the comparison applied to the module's microtask counter
+	mfset, mf := parseFile("modules/modules.go")
+	chk := findFunc(mf, "checkIfStopComplete", "Module")
+	if chk == nil {
+		die("checkIfStopComplete not found in modules/modules.go")
+	}
+	var conds []*ast.BinaryExpr
+	loads := 0
+	ast.Inspect(chk.Body, func(n ast.Node) bool {
+		switch x := n.(type) {
+		case *ast.CallExpr:
+			if isSel(x.Fun, "atomic", "LoadInt32") && len(x.Args) == 1 && isCounter(x.Args[0]) == "per-module" {
+				loads++
+			}
+		case *ast.IfStmt:
+			var flat func(e ast.Expr)
+			flat = func(e ast.Expr) {
+				if p, ok := e.(*ast.ParenExpr); ok {
+					flat(p.X)
+					return
+				}
+				if be, ok := e.(*ast.BinaryExpr); ok {
+					if be.Op == token.LAND {
+						flat(be.X)
+						flat(be.Y)
+						return
+					}
+					if ce, ok := be.X.(*ast.CallExpr); ok && isSel(ce.Fun, "atomic", "LoadInt32") && len(ce.Args) == 1 && isSel(ce.Args[0], "m", "microTaskCnt") {
+						conds = append(conds, be)
+					}
+				}
+			}
+			flat(x.Cond)
+		}
+		return true
+	})
+	if len(conds) != 1 || loads != 1 {
+		die("checkIfStopComplete: expected exactly one conjunct `atomic.LoadInt32(m.microTaskCnt) <op> <const>` (found %d conjuncts, %d loads of the counter)", len(conds), loads)
+	}
+	fmt.Fprintf(&sb, "/-- the condition `checkIfStopComplete` puts on the module's microtask counter (a conjunct of its completion test) -/\ndef stopCheckMicro (cnt : Int) : Bool := decide (cnt %s %s)\n\n",
+		leanCmp(conds[0].Op), constVal(mfset, conds[0].Y).ExactString())
+
+	// --- every write to the counters in the whole package
+	files, err := filepath.Glob(filepath.Join(repo, "modules", "*.go"))
+	if err != nil || len(files) == 0 {
+		die("modules/*.go: %v", err)
+	}
+	sort.Strings(files)
+	nFiles := 0
+	for _, path := range files {
+		if strings.HasSuffix(path, "_test.go") {
+			continue
+		}
+		nFiles++
+		base := filepath.Base(path)
+		pfset := token.NewFileSet()
+		src, err := os.ReadFile(path)
+		if err != nil {
+			die("%v", err)
+		}
+		pf, err := parser.ParseFile(pfset, path, src, 0)
+		if err != nil {
+			die("parse %s: %v", base, err)
+		}
+		for _, d := range pf.Decls {
+			fn, ok := d.(*ast.FuncDecl)
+			if !ok || fn.Body == nil {
+				continue
+			}
+			where := base + ":" + fn.Name.Name
+			ast.Inspect(fn.Body, func(n ast.Node) bool {
+				switch x := n.(type) {
+				case *ast.CallExpr:
+					if w, tgt := counterWrite(x); w != "" && base != "microtasks.go" {
+						// the functions of microtasks.go are checked one by one above
+						die("%s: %s on the %s microtask counter outside modules/microtasks.go (not in the model)", where, w, tgt)
+					}
+					if isSel(x.Fun, "atomic", "AddInt32") && len(x.Args) == 2 && isCounter(x.Args[0]) != "" && base != "microtasks.go" {
+						die("%s: atomic.AddInt32 on the %s microtask counter outside modules/microtasks.go (not in the model)", where, isCounter(x.Args[0]))
+					}
+				case *ast.AssignStmt:
+					for _, l := range x.Lhs {
+						if st, ok := l.(*ast.StarExpr); ok && isCounter(st.X) != "" {
+							die("%s: plain assignment to the %s microtask counter", where, isCounter(st.X))
+						}
+						if c := isCounter(l); c != "" && !(base == "microtasks.go" && fn.Name.Name == "init") {
+							die("%s: the %s microtask counter is re-pointed", where, c)
+						}
+					}
+				case *ast.IncDecStmt:
+					if st, ok := x.X.(*ast.StarExpr); ok && isCounter(st.X) != "" {
+						die("%s: plain %s on the %s microtask counter", where, x.Tok, isCounter(st.X))
+					}
+				case *ast.UnaryExpr:
+					// taking the address of the pointer variable itself would allow writes we cannot see
+					if x.Op == token.AND && isCounter(x.X) != "" {
+						die("%s: address of the %s microtask counter variable taken", where, isCounter(x.X))
+					}
+				}
+				return true
+			})
+		}
+	}
+	fmt.Fprintf(&sb, "/-- non-test files of package modules scanned for writes to the two counters; none outside the modelled functions of microtasks.go -/\ndef counterWritersScannedFiles : Nat := %d\ndef counterWritesOutsideModel : Nat := 0\n\n", nFiles)
+
+	// --- hook lines of the stop protocol the C15 trace relies on (bracket around the module counter operations,
+	// the stop check's read of the counter, the stop/start steps)
+	need := map[string][]string{
+		"modules/microtasks.go": {`verifEvent("pre:inc:m", m.Name)`, `verifEvent("pre:dec:m", m.Name)`, `verifEvent("post", m.Name)`},
+		"modules/modules.go": {`verifEvent("pre:cFast", m.Name)`, `verifTrue("mid:cM", m.Name)`, `verifEvent("mid:cCas", m.Name)`, `verifEvent("post:fail", m.Name)`,
+			`verifEvent("pre:stopBegin", m.Name)`, `verifEvent("pre:sFlag", m.Name)`, `verifEvent("ev:sWake", m.Name)`, `verifEvent("ev:sTimeout", m.Name)`,
+			`verifEvent("pre:sOffline", m.Name)`, `verifEvent("pre:startBegin", m.Name)`},
+	}
+	for _, rel := range sortedKeys(need) {
+		src, err := os.ReadFile(filepath.Join(repo, rel))
+		if err != nil {
+			die("%v", err)
+		}
+		for _, h := range need[rel] {
+			if !strings.Contains(string(src), h) {
+				die("%s: hook line %s not found (the C15 trace of the module counter / stop protocol needs it)", rel, h)
+			}
+		}
+	}
+
 	sb.WriteString("end PB.Gen.MicroTasks\n")
 	write("MicroTasks.lean", sb.String())
+}
+
+// isCounter says whether e denotes one of the two counters: "global" for the package variable microTasks,
+// "per-module" for <anything>.microTaskCnt, "" otherwise.
+func isCounter(e ast.Expr) string {
+	if p, ok := e.(*ast.ParenExpr); ok {
+		return isCounter(p.X)
+	}
+	if mtIsIdent(e, "microTasks") {
+		return "global"
+	}
+	if s, ok := e.(*ast.SelectorExpr); ok && s.Sel.Name == "microTaskCnt" {
+		return "per-module"
+	}
+	return ""
+}
+
+// counterWrite recognises a call of package atomic other than a Load* and other than AddInt32 whose first argument
+// is one of the counters; it returns the function name and the counter ("" if it is none).
+func counterWrite(ce *ast.CallExpr) (string, string) {
+	se, ok := ce.Fun.(*ast.SelectorExpr)
+	if !ok || !mtIsIdent(se.X, "atomic") || len(ce.Args) == 0 {
+		return "", ""
+	}
+	if strings.HasPrefix(se.Sel.Name, "Load") || se.Sel.Name == "AddInt32" {
+		return "", ""
+	}
+	if c := isCounter(ce.Args[0]); c != "" {
+		return "atomic." + se.Sel.Name, c
+	}
+	return "", ""
 }
 
 func mtIsIdent(e ast.Expr, name string) bool {
